@@ -99,7 +99,8 @@ def _replay_text(model, rec):
     prs = Presentation()
     cp = prs.core_properties
     L = model.get("len_value")
-    for s in [("y" * L if isinstance(L, int) and 0 <= L <= 100000 else None), "", "x" * 255, "x" * 256, "a<b&c>\"'", " lead", "\U0001F600" * 3]:
+    for s in [("y" * L if isinstance(L, int) and 0 <= L <= 100000 else None), "", "x" * 255, "x" * 256, "a<b&c>\"'", " lead", "\U0001F600" * 3,
+              "&" * 255, "<>" * 127 + "<", "\"" * 255, "R&D <Q3> " * 28, "\u00e9" * 255, "\U0001F600" * 255, "&" * 256, "\u00e9" * 256]:
         if not isinstance(s, str):
             continue
         for attr in ("author", "title", "keywords"):
@@ -171,7 +172,10 @@ def _replay_revision(model, rec):
     from pptx import Presentation
 
     cp = Presentation().core_properties
-    for v in [model.get("value"), model.get("vb"), 1, 2, 2 ** 40, 0, -1, True]:
+    import decimal
+    import fractions as _fr
+
+    for v in [model.get("value"), model.get("vb"), 1, 2, 2 ** 40, 0, -1, True, 2.5, 41.0, "12", decimal.Decimal("3.9"), _fr.Fraction(7, 2), 1e3, b"5", [3], float("inf")]:
         if v is None:
             continue
         try:
@@ -180,7 +184,8 @@ def _replay_revision(model, rec):
             if isinstance(v, int) and not isinstance(v, bool) and v >= 1:
                 return {"confirmed": True, "witness_class": "revision", "detail": "revision = %r raised ValueError" % (v,)}
             continue
-        if cp.revision != v or (isinstance(v, int) and v < 1):
+        proper = isinstance(v, int) and v >= 1  # (True is the integer 1)
+        if cp.revision != v or not proper:
             return {"confirmed": True, "witness_class": "revision-bool" if isinstance(v, bool) else "revision",
                     "detail": "revision = %r is accepted, stored as %r and reads back %r" % (v, cp._element.revision.text, cp.revision)}
     return {"confirmed": False, "detail": "revision behaves on the probed values"}
@@ -640,6 +645,10 @@ def _native_roundtrip(tier="quick", seed=0):
                 elif getattr(cpx, attr) is None:
                     bad = bad or "%s = %r is written as %r and reads back None" % (attr, v, text)
     rec("C18.native.datetime_text_is_w3cdtf", bad is None, bad, "datetime-lexical")
+    rr = _replay_revision({}, {})
+    rec("C18.native.revision_takes_positive_integers_only", not rr.get("confirmed"), rr.get("detail"), "revision")
+    rt = _replay_text({}, {})
+    rec("C18.native.strings_up_to_255_characters_whatever_they_contain", not rt.get("confirmed"), rt.get("detail"), "string-prop")
     w = _w3cdtf_forms_misread()
     evals += 3 * len(W3CDTF_FORMS)
     rec("C18.native.w3cdtf_spellings_read_as_utc", w is None, w, "w3cdtf-form")
